@@ -414,13 +414,14 @@ inline void m14(const Edge& e, const Parsed&) {
 // =========================================================================== C16: logging
 inline void m16(const Edge& e, const Parsed&) {
 #if VX_LOG
-	const bool on = e.initial ? (e.op.a != 0) : e.logger_on;
+	bool on = e.initial ? (e.op.a != 0) : e.logger_on; bool toggled = false; const bool on0 = on;   // callbacks may attach / detach the logger themselves: from then on records go to the new one (or stop)
 	const bool offAfterAttach = e.op.k == OP_ATTACH;
 	if (offAfterAttach) { for (int i = 0; i < e.nev; ++i) if (e.tr[i].kind >= EV_LOG_METHOD && e.tr[i].kind <= EV_LOG_PLAN) flag(C16, "record-during-attach", e, "ev %d", i); return; }
 	const uint8_t bare = VX_BARE ? N - 1 : 200;
 	for (int i = 0; i < e.nev; ++i) {
 		const Ev& v = e.tr[i];
 		if (v.kind == EV_MARK) break;
+		if (v.kind == EV_LOG_ATTACH) { on = v.a != 0; toggled = true; continue; }
 		const bool isLog = v.kind >= EV_LOG_METHOD && v.kind <= EV_LOG_PLAN;
 		if (!on) { if (isLog) flag(C16, "record-without-logger", e, "ev %d", i); continue; }
 		if (v.kind == EV_LOG_METHOD) {
@@ -464,7 +465,7 @@ inline void m16(const Edge& e, const Parsed&) {
 		}
 	}
 #if VX_LOG == 2
-	if (on && !e.overflow) {
+	if (on && !toggled && !e.overflow) {
 		// verbose: the method records alone must show every delivery, also those to the state without callbacks
 		const uint8_t A = e.initial ? NONE8 : e.pre.active;
 		uint8_t ps[12], pm[12]; int np = 0; uint8_t ls[8], lm[8]; int nl = 0;
@@ -492,7 +493,7 @@ inline void m16(const Edge& e, const Parsed&) {
 		}
 	}
 #endif
-	if (on) {
+	if (on0) {
 		if ((e.op.k == OP_CHANGE || e.op.k == OP_IMM || e.op.k == OP_CHANGEW || e.op.k == OP_IMMW) && !(e.nev && e.tr[0].kind == EV_LOG_TRANS && e.tr[0].sid == ROOT && e.tr[0].a == e.op.a)) flag(C16, "external-request-without-record", e, "no transition record for the external request");
 		if ((e.op.k == OP_SUCCEED || e.op.k == OP_FAIL) && !(e.nev && e.tr[0].kind == EV_LOG_TASK && e.tr[0].sid == e.op.a)) flag(C16, "external-report-without-record", e, "no task-status record");
 	}
